@@ -521,3 +521,32 @@ def doc_sequence(space, n):
         out += [c + str(k) for c in base]
         k += 1
     return out
+
+
+def rebuild_names(expr, name_map):
+    """rename tensors (dict old -> new, applied to exact names and to the
+    prefix of amplitude / density names) by reconstruction"""
+    expr = S(getattr(expr, "sympy", expr))
+
+    def nm(name):
+        return name_map.get(name, name)
+
+    def rec(e):
+        if isinstance(e, Amplitude):
+            return Amplitude(nm(e.name), e.upper, e.lower, e.bra_ket_sym)
+        if isinstance(e, SymmetricTensor):
+            return SymmetricTensor(nm(e.name), e.upper, e.lower,
+                                   e.bra_ket_sym)
+        if isinstance(e, AntiSymmetricTensor):
+            return AntiSymmetricTensor(nm(e.name), e.upper, e.lower,
+                                       e.bra_ket_sym)
+        if isinstance(e, NonSymmetricTensor):
+            return NonSymmetricTensor(nm(e.name), e.indices)
+        if isinstance(e, Add):
+            return Add(*[rec(a) for a in e.args])
+        if isinstance(e, Mul):
+            return Mul(*[rec(a) for a in e.args])
+        if isinstance(e, Pow):
+            return Pow(rec(e.args[0]), e.args[1])
+        return e
+    return rec(expr)
